@@ -12,7 +12,7 @@ def register(prop, J):
          exhaustive=True,
          jobs=[
              J("route-v2", "v2", "routeprops", RUN, checks=(24000, 1600000), shards=(8, 16), timeout=(300, 1500)),
-             J("route-v1", "v1", "routeprops", RUN, checks=(8000, 480000), shards=(4, 16), timeout=(300, 1500)),
+             J("route-v1", "v1", "routeprops", RUN, checks=(12000, 480000), shards=(8, 16), timeout=(300, 1500)),
          ],
          level_text="complete enumeration of a fixed family of resource trees x request product against an independent routing decision "
                     "table (DESIGN Appendix B), and rapid-generated trees / requests with shrinking, in both module generations; every request is "
